@@ -136,6 +136,19 @@ class Acc:
         self.errors += o.errors
 
 
+def regression_cases(prop_id):
+    """Committed regression cases replays/regression-<id>-*.json (shrunk failures of fixed or known
+    findings); they are replayed first in every run."""
+    import glob
+
+    out = []
+    for path in sorted(glob.glob(os.path.join(VERIF, "replays", "regression-%s-*.json" % prop_id))):
+        with open(path) as f:
+            doc = json.load(f)
+        out.append((os.path.basename(path), doc["case"] if "case" in doc else doc))
+    return out
+
+
 def _load(prop_id):
     import importlib
 
@@ -234,6 +247,7 @@ def run_check(prop_id, tier, seed_value, replay=None):
         n_fixed = 1
     else:
         fixed = list(mod.fixed_cases(tier)) if hasattr(mod, "fixed_cases") else []
+        fixed += regression_cases(prop_id)
         n_fixed = len(fixed)
         n = int(mod.BUDGET[tier])
         W = min(NPROC, max(1, n // 4)) if n > 0 else 0
